@@ -41,6 +41,7 @@ type Exec struct {
 	oos       []string       // out-of-subset notes
 	notes     map[string]bool
 	freshN    int
+	opaqueAx  map[string]string // defining axioms of opaque predicates, by symbol
 	cellN     int
 	typeTags  map[string]int64
 	unit      *ssa.Function
